@@ -158,6 +158,7 @@ struct ObjSet {
   // model of documented state
   int arch = 0;
   uint64_t base = Globals::kNoBaseAddress;
+  bool host_features = false;        // initialised with CpuInfo::host().features() (kept by reinit(), dropped by reset())
   bool logger_on = false;
   Flags fl;
   bool relocated = false;            // flatten()/relocate_to_base() "should never be called more than once" (per initialisation)
@@ -197,7 +198,7 @@ struct ObjSet {
   Error do_init(int a, uint64_t b, bool host_features = false) {
     Error e = host_features ? code.init(Environment(arch_of(a)), CpuInfo::host().features(), b) : code.init(Environment(arch_of(a)), b);
     if (e == Error::kOk) {
-      arch = a; base = b;
+      arch = a; base = b; this->host_features = host_features;
       code.set_error_handler(&eh);
       if (fl.L) { code.set_logger(&logger); logger_on = true; } else logger_on = false;
     }
@@ -315,6 +316,7 @@ static void take_snapshot(CodeHolder& code, Snap& sn) {
   fmt_fixups(sn.fixups, code._fixups);
   sfmt(sn.misc, "code_size=%zu unresolved=%zu labels=%zu sections=%zu relocs=%zu base=%llx arch=%u", code.code_size(), code.unresolved_fixup_count(), code.label_count(),
        code.section_count(), res.size(), (unsigned long long)code.base_address(), unsigned(code.arch()));
+  { CpuFeatures cf = code.cpu_features(); sfmt(sn.misc, " cpu=%llx", (unsigned long long)vh::fnv1a(&cf, sizeof cf)); }
 }
 
 // flatten + resolve + relocate + flattened image
@@ -1117,6 +1119,47 @@ static void check_detached(vh::Ctx& ctx, ObjSet& o, const char* when) {
   }
 }
 
+// The holder's list of attached emitters must contain exactly the emitters that say they are attached to it, with consistent links.
+static void check_attached_list(vh::Ctx& ctx, ObjSet& o, const char* when) {
+  std::set<const BaseEmitter*> model, seen;
+  for (int a = 0; a < 3; a += 2) for (int k = 0; k < 3; k++) if (o.em(a, k)->code() == &o.code) model.insert(o.em(a, k));
+  const BaseEmitter* prev = nullptr;
+  bool ok = true;
+  int guard = 0;
+  for (const BaseEmitter* e = o.code.attached_first(); e && guard < 16; e = e->_attached_next, guard++) {
+    if (e->_attached_prev != prev || !seen.insert(e).second) ok = false;
+    prev = e;
+  }
+  if (o.code.attached_last() != prev || seen != model) ok = false;
+  if (!ok) ctx.fail_unless_known("attached-emitter-list-corrupt", std::string(when) + ": CodeHolder's attached-emitter list has " + std::to_string(seen.size()) + " reachable entries, " + std::to_string(model.size()) + " emitters are attached, or links are inconsistent");
+  if (model.size() >= 2) ctx.cls("hist_two_or_more_emitters_attached");
+}
+
+// After reset() a holder is uninitialised again: everything observable must look like a default-constructed holder.
+static void check_uninitialized(vh::Ctx& ctx, CodeHolder& code, const char* when) {
+  std::string why;
+  if (code.is_initialized()) why += "initialized ";
+  if (code.base_address() != Globals::kNoBaseAddress) why += "base_address ";
+  if (code.logger()) why += "logger ";
+  if (code.error_handler()) why += "error_handler ";
+  if (code.attached_first() || code.attached_last()) why += "attached_emitters ";
+  if (code.section_count() || !code.sections_by_order().is_empty()) why += "sections ";
+  if (code.label_count()) why += "labels ";
+  if (code.has_reloc_entries()) why += "relocs ";
+  if (code.unresolved_fixup_count() || code._fixups) why += "fixups ";
+  if (code.has_address_table_section() || !code._address_table_entries.is_empty()) why += "address_table ";
+  if (code.code_size()) why += "code_size ";
+  if (code._text_section.buffer_size()) why += "text_size ";
+  { CpuFeatures cf = code.cpu_features(), def{}; if (memcmp(&cf, &def, sizeof cf) != 0) why += "cpu_features "; }
+  if (code.label_id_by_name("alpha") != Globals::kInvalidId || code.label_id_by_name("dup_name") != Globals::kInvalidId) why += "named_labels ";
+  size_t p0 = 0;
+  while (p0 < why.size()) {
+    size_t p1 = why.find(' ', p0);
+    ctx.fail_unless_known("residue-uninitialized-holder:" + why.substr(p0, p1 - p0), std::string(when) + ": holder is not back in the default-constructed state: " + why);
+    p0 = p1 + 1;
+  }
+}
+
 static void apply_hist(ObjSet& o, const vh::Op& op, vh::Ctx& ctx, Hist& h) {
   if (op.empty()) return;
   int opc = int(uint64_t(op[0]) % 10);
@@ -1155,8 +1198,8 @@ static void apply_hist(ObjSet& o, const vh::Op& op, vh::Ctx& ctx, Hist& h) {
     case 3: inject_error(o, op, ctx, h); h.text += "err "; break;
     case 4: {
       bool hard = arg(1) & 1;
-      if (o.inited()) { code.reset(hard ? ResetPolicy::kHard : ResetPolicy::kSoft); o.spent.clear(); o.relocated = false; o.base = Globals::kNoBaseAddress; o.logger_on = false; h.n_reset++; if (h.gen_nonempty) h.reset_after_gen = true;
-        ctx.cls(hard ? "hist_reset_hard" : "hist_reset_soft"); h.text += hard ? "reset(hard) " : "reset(soft) "; check_detached(ctx, o, "after reset()"); }
+      if (o.inited()) { code.reset(hard ? ResetPolicy::kHard : ResetPolicy::kSoft); o.spent.clear(); o.relocated = false; o.host_features = false; o.base = Globals::kNoBaseAddress; o.logger_on = false; h.n_reset++; if (h.gen_nonempty) h.reset_after_gen = true;
+        ctx.cls(hard ? "hist_reset_hard" : "hist_reset_soft"); h.text += hard ? "reset(hard) " : "reset(soft) "; check_detached(ctx, o, "after reset()"); check_uninitialized(ctx, code, hard ? "after reset(hard)" : "after reset(soft)"); }
       break;
     }
     case 5: if (o.inited()) { code.reinit(); o.spent.clear(); o.relocated = false; h.n_reset++; if (h.gen_nonempty) h.reset_after_gen = true; ctx.cls("hist_reinit"); h.text += "reinit "; } break;
@@ -1173,8 +1216,9 @@ static void apply_hist(ObjSet& o, const vh::Op& op, vh::Ctx& ctx, Hist& h) {
       h.text += "dangle ";
       break;
     }
-    default: if (o.inited() && o.fl.L) { bool on = arg(1) & 1; code.set_logger(on ? &o.logger : nullptr); o.logger_on = on; ctx.cls("hist_logger_toggle"); } break;
+    default: if (o.inited()) { bool on = arg(1) & 1; code.set_logger(on ? &o.logger : nullptr); o.logger_on = on; ctx.cls("hist_logger_toggle"); } break;
   }
+  check_attached_list(ctx, o, "after a history op");
 }
 
 // =====================================================================================================================
@@ -1232,11 +1276,11 @@ struct Plan {
 };
 
 // Fresh objects generating only P_final.
-static void run_fresh(const Plan& pl, const Flags& fl, uint64_t base, const vh::Op& prog, Snap& sn, vh::Ctx& ctx, const char* what) {
+static void run_fresh(const Plan& pl, const Flags& fl, uint64_t base, bool host_features, const vh::Op& prog, Snap& sn, vh::Ctx& ctx, const char* what) {
   if (fl.H) hp::arm(uint64_t(fl.heap_seed));
   {
     ObjSet o(fl);
-    o.do_init(pl.arch, base);
+    o.do_init(pl.arch, base, host_features);
     BaseEmitter* e = o.em(pl.arch, pl.kind);
     o.code.attach(e);
     run_final(o, e, pl.arch, pl.kind, prog, pl.post, nullptr, sn);
@@ -1272,6 +1316,7 @@ void vh_run(const vh::Case& c, vh::Ctx& ctx) {
   Snap s1;
   Hist h;
   uint64_t final_base = Globals::kNoBaseAddress;
+  bool final_features = false;
   bool used_reinit = false, extra_attached = false;
   Prog* info = nullptr;
   bool any_func = false, any_reloc = false, any_section = false, any_named = false, any_fwd = false, any_pool = false;
@@ -1286,7 +1331,7 @@ void vh_run(const vh::Case& c, vh::Ctx& ctx) {
     BaseEmitter* e = nullptr;
     if (pl.mix == 2) {
       // fresh holder + recycled emitter: the emitter must be detached from the old holder first
-      if (o.inited()) { o.code.reset(pl.final_step == 1 ? ResetPolicy::kHard : ResetPolicy::kSoft); o.spent.clear(); o.relocated = false; o.base = Globals::kNoBaseAddress; }
+      if (o.inited()) { o.code.reset(pl.final_step == 1 ? ResetPolicy::kHard : ResetPolicy::kSoft); o.spent.clear(); o.relocated = false; o.host_features = false; o.base = Globals::kNoBaseAddress; }
       aux.reset(new ObjSet(pl.fl));
       holder = aux.get();
       holder->do_init(pl.arch, Globals::kNoBaseAddress);
@@ -1296,10 +1341,13 @@ void vh_run(const vh::Case& c, vh::Ctx& ctx) {
     }
     else {
       if (pl.final_step == 2 && o.inited() && o.arch == pl.arch) { o.code.reinit(); o.spent.clear(); o.relocated = false; used_reinit = true; ctx.cls("final_reinit"); }
-      else if (o.inited()) { bool hard = pl.final_step == 1; o.code.reset(hard ? ResetPolicy::kHard : ResetPolicy::kSoft); o.spent.clear(); o.relocated = false; o.base = Globals::kNoBaseAddress; ctx.cls(hard ? "final_reset_hard" : "final_reset_soft"); }
+      else if (o.inited()) { bool hard = pl.final_step == 1; o.code.reset(hard ? ResetPolicy::kHard : ResetPolicy::kSoft); o.spent.clear(); o.relocated = false; o.host_features = false; o.base = Globals::kNoBaseAddress; ctx.cls(hard ? "final_reset_hard" : "final_reset_soft"); }
       else ctx.cls("final_holder_was_uninitialized");
       if (!o.inited()) o.do_init(pl.arch, Globals::kNoBaseAddress);
-      if (pl.fl.L && !o.logger_on) { o.code.set_logger(&o.logger); o.logger_on = true; }
+      // reinit() keeps the attached logger by design: put it into the state the final run asks for; after reset()+init() a logger is only
+      // attached when asked for (reset() promises to drop the old one)
+      if (used_reinit && o.logger_on != pl.fl.L) { o.code.set_logger(pl.fl.L ? &o.logger : nullptr); o.logger_on = pl.fl.L; }
+      VH_CHECK(ctx, (o.code.logger() != nullptr) == pl.fl.L, "residue-logger-attached", "holder logger attached=%d, expected %d", int(o.code.logger() != nullptr), int(pl.fl.L));
       VH_CHECK(ctx, o.code.base_address() == o.base, "residue-base-address", "base address %llx, documented model says %llx", (unsigned long long)o.code.base_address(), (unsigned long long)o.base);
       if (pl.mix == 1) { aux.reset(new ObjSet(pl.fl)); e = aux->em(pl.arch, pl.kind); ctx.cls("final_recycled_holder_fresh_emitter"); }
       else { e = o.em(pl.arch, pl.kind); ctx.cls("final_both_recycled"); }
@@ -1315,6 +1363,7 @@ void vh_run(const vh::Case& c, vh::Ctx& ctx) {
     }
     if (h.gen_nonempty) h.reset_after_gen = true;
     final_base = holder->base;
+    final_features = holder->host_features;
     VH_CHECK(ctx, e->code() == &holder->code, "attach-failed", "final emitter could not be attached");
     run_final(*holder, e, pl.arch, pl.kind, prog, pl.post, &ctx, s1, &info);
     any_func = info->any_func; any_reloc = info->any_reloc; any_section = info->any_section; any_named = info->any_named; any_fwd = info->any_fwd; any_pool = info->any_pool;
@@ -1333,12 +1382,12 @@ void vh_run(const vh::Case& c, vh::Ctx& ctx) {
 
   // ---- fresh with the same flags (F1) and plain fresh (S0) ----
   Snap f1;
-  run_fresh(pl, pl.fl, final_base, prog, f1, ctx, "fresh run");
+  run_fresh(pl, pl.fl, final_base, final_features, prog, f1, ctx, "fresh run");
   bool flagged = pl.fl.L || pl.fl.V || pl.fl.H || pl.fl.A;
   if (flagged) {
     Snap s0;
     Flags none; none.logfmt = pl.fl.logfmt; none.enc = pl.fl.enc;
-    run_fresh(pl, none, final_base, prog, s0, ctx, "plain fresh run");
+    run_fresh(pl, none, final_base, final_features, prog, s0, ctx, "plain fresh run");
     bool comparable = !pl.fl.V || s0.trace == f1.trace;   // validation legitimately rejects calls the bare encoder accepts or fails later
     if (!comparable) ctx.cls("validation_rejects_more_than_encoder");
     if (comparable && !compare_snaps(ctx, s0, f1, pl.kind, "?probe", desc, false)) {
@@ -1351,14 +1400,14 @@ void vh_run(const vh::Case& c, vh::Ctx& ctx) {
         Flags one; one.enc = pl.fl.enc; one.logfmt = pl.fl.logfmt; one.heap_seed = pl.fl.heap_seed; one.static_sel = pl.fl.static_sel; one.RAdbg = pl.fl.RAdbg;
         if (fk.which == 0) one.H = true; else if (fk.which == 1) one.L = true; else if (fk.which == 2) one.V = true; else one.A = true;
         Snap sx;
-        run_fresh(pl, one, final_base, prog, sx, ctx, "single-flag fresh run");
+        run_fresh(pl, one, final_base, final_features, prog, sx, ctx, "single-flag fresh run");
         if (fk.which == 2 && sx.trace != s0.trace) continue;
         if (!compare_snaps(ctx, s0, sx, pl.kind, fk.key, desc + " [fresh objects, only this flag]", false)) attributed = true;
       }
       if (!attributed) ctx.fail_unless_known("flag-combination-changes-output", desc + ": fresh objects with all flags differ from plain fresh objects, no single flag does");
     }
   }
-  compare_snaps(ctx, f1, s1, pl.kind, nullptr, desc, pl.fl.L);
+  compare_snaps(ctx, f1, s1, pl.kind, nullptr, desc, true);
 
   // ---- a function compiled after another function by the same Compiler == the function compiled alone ----
   if (pl.kind == kCompiler) {
@@ -1436,24 +1485,25 @@ static rc::Gen<std::vector<int64_t>> gen_items(int kind) {
   });
 }
 
-static rc::Gen<vh::Op> gen_gen_op() {
+static rc::Gen<vh::Op> gen_gen_op(int farch) {
   using namespace rc;
-  return gen::exec([]() -> vh::Op {
+  return gen::exec([farch]() -> vh::Op {
     int kind = *vh::irange<int>(0, 2);
     int pf = *gen::weightedElement<int>({{6, 1}, {2, 0}, {2, 5}, {2, 3}, {1, 7}, {1, 4}});
-    vh::Op op = {2, kind, pf, *vh::irange<int>(0, 11)};
+    int ar = *vh::irange<int>(0, 9) < 6 ? farch : *vh::irange<int>(0, 2);
+    vh::Op op = {2, kind, pf, ar + 3 * *vh::irange<int>(0, 3)};
     std::vector<int64_t> items = *gen_items(kind);
     op.insert(op.end(), items.begin(), items.end());
     return op;
   });
 }
 
-static rc::Gen<vh::Op> gen_hist_op() {
+static rc::Gen<vh::Op> gen_hist_op(int farch) {
   using namespace rc;
-  return gen::exec([]() -> vh::Op {
+  return gen::exec([farch]() -> vh::Op {
     int sel = *vh::irange<int>(0, 99);
-    if (sel < 34) return *gen_gen_op();
-    if (sel < 40) return vh::Op{0, *vh::irange<int>(0, 2), *vh::irange<int>(0, 3), *vh::irange<int>(0, 1)};
+    if (sel < 34) return *gen_gen_op(farch);
+    if (sel < 40) return vh::Op{0, *vh::irange<int>(0, 9) < 6 ? farch : *vh::irange<int>(0, 2), *vh::irange<int>(0, 3), *vh::irange<int>(0, 1)};
     if (sel < 46) return vh::Op{1, *vh::irange<int>(0, 2)};
     if (sel < 62) return vh::Op{3, *vh::irange<int>(0, 14), *vh::irange<int>(0, 2), *vh::irange<int>(0, 5)};
     if (sel < 74) return vh::Op{4, *vh::irange<int>(0, 1)};
@@ -1474,7 +1524,7 @@ rc::Gen<vh::Case> vh_gen(const vh::Opts&) {
     int fstep = *vh::irange<int>(0, 2);
     int mix = *gen::weightedElement<int>({{7, 0}, {2, 1}, {2, 2}});
     c.cfg = {arch, kind, flags, fstep, mix, *vh::irange<int>(0, 4), *vh::irange<int>(0, 255), *vh::irange<int>(0, 3), *gen::weightedElement<int>({{5, 0}, {2, 1}, {1, 2}, {1, 3}}), *gen::weightedElement<int>({{5, 0}, {1, 1}, {1, 2}, {1, 3}})};
-    c.ops = *gen::container<std::vector<vh::Op>>(gen_hist_op());
+    c.ops = *gen::container<std::vector<vh::Op>>(gen_hist_op(arch));
     // the final program: same emitter kind as cfg
     vh::Op fin = {2, kind, *gen::weightedElement<int>({{3, 0}, {2, 4}}), 0};
     std::vector<int64_t> items = *gen_items(kind);
